@@ -425,14 +425,19 @@ def gen_combo_base(rng, cid):
     h = span / (n - 1)
     n_peaks = rng.choice([1, 1, 2])
     shape = rng.choice(PEAKS)
-    deg = rng.choice([1, 2])
+    directed = rng.random() < 0.65
+    deg = rng.choice([1, 2, 2]) if directed else rng.choice([1, 2])
     ws = rng.uniform(3, 9) / (1.0 if n_peaks == 1 else 1.6)
-    y, var, pk, meta = synth_data(rng, x, n_peaks, width_steps=ws, bkg_deg=deg, shapes=[shape], height_range=rng.choice(HEIGHTS))
+    y, var, pk, meta = synth_data(rng, x, n_peaks, width_steps=ws, bkg_deg=deg, shapes=[shape],
+                                  height_range=rng.choice(HEIGHTS[:2] if directed else HEIGHTS))
     c = {'id': cid, 'class': 'combo', 'x': x, 'y': y, 'var': var, 'grid': gkind, 'truth': pk}
     pks = rng.sample(PEAKS, rng.choice([2, 2, 3]))
-    if pks[0] == shape and rng.random() < 0.7:
+    if pks[0] == shape and (directed or rng.random() < 0.7):
         pks = pks[1:] + pks[:1]
     bks = rng.choice([['linear', 'quadratic'], ['linear', 'quadratic'], ['quadratic', 'linear']])
+    if directed:
+        # wrong shape + linear background is the worst fit; the richer background or the true shape alone improve it
+        bks = ['linear', 'quadratic']
 
     def item(kind_name, role):
         if rng.random() < 0.7:
@@ -562,7 +567,7 @@ def witness_cases():
     return [enc(w1), enc(w2), enc(w3), enc(w4), enc(w5)]
 
 
-N_COMBO = 14
+N_COMBO = 12
 
 
 def want_solo(c):
